@@ -1,6 +1,6 @@
 #!/bin/bash
 # usage: tools/eval_seed.sh C07_a [check ids...]   - confirms a seeded change in a scratch worktree and runs the checks against it
-# needs /tmp/seed/out/<name>.diff and demo_<name>.py
+# needs ${SEED_DIR:-/tmp/seed/out}/<name>.diff and demo_<name>.py
 set -u
 name=$1; shift
 prop=${name%%_*}
@@ -9,11 +9,11 @@ out=/tmp/main/seedeval/$name; rm -rf $out; mkdir -p $out
 wt=/tmp/main/seedwt_$name
 git -C /repo worktree remove --force $wt >/dev/null 2>&1
 git -C /repo worktree add -q --detach $wt HEAD || exit 3
-cp /tmp/seed/out/demo_$name.py $wt/ 2>/dev/null
+cp ${SEED_DIR:-/tmp/seed/out}/demo_$name.py $wt/ 2>/dev/null
 res="{\"name\":\"$name\""
 # demo without the change
 ( cd $wt && PYTHONPATH=$wt timeout 300 /venv/bin/python demo_$name.py > $out/demo_without.log 2>&1 ); d0=$?
-if ! git -C $wt apply /tmp/seed/out/$name.diff 2> $out/apply.log; then echo "$name: patch does not apply to HEAD"; cat $out/apply.log | head -3; git -C /repo worktree remove --force $wt; exit 4; fi
+if ! git -C $wt apply ${SEED_DIR:-/tmp/seed/out}/$name.diff 2> $out/apply.log; then echo "$name: patch does not apply to HEAD"; cat $out/apply.log | head -3; git -C /repo worktree remove --force $wt; exit 4; fi
 ( cd $wt && PYTHONPATH=$wt timeout 300 /venv/bin/python demo_$name.py > $out/demo_with.log 2>&1 ); d1=$?
 ( cd $wt && /venv/bin/python -m pytest -q -p no:cacheprovider --timeout=900 --continue-on-collection-errors -n 8 --junitxml=$out/junit.xml > $out/pytest.log 2>&1 )
 suite=$(python3 - $out/junit.xml <<'PY'
